@@ -19,7 +19,7 @@ EXPLANATION = (
     "ever poisoned); the stores' initial contents are constants of the Known kind. C20.4: every accessor stores Some(..) inside call_once "
     "before returning. C20.1: no unsafe code, no static mut, store fields touched only by the accessor; the global context is taken "
     "mutably only by register_tags. C20.5: compile witnesses - with `multithreaded` Envelope/Assertion/FormatContext: Send + Sync "
-    "type-checks; without it `Envelope: Send` fails with E0277. C20.6: a value written through a store guard is never computed from the same store's content read under a different acquisition (no copy-out / write-back update). C20.7: the global format context is never acquired inside a loop or a per-element closure (one rendering = one guard = one state of the context). Does not decide which text a formatting call returns while another thread "
+    "type-checks; without it `Envelope: Send` fails with E0277. C20.6: a value written through a store guard is never computed from the same store's content read under a different acquisition (no copy-out / write-back update). C20.7: the global format context is never acquired inside a loop or a per-element closure (one rendering = one guard = one state of the context). C20.8: every public text-returning function that reaches dcbor's global tag store by a route that reads tag names (not the value-only cbor_tags / tags_for_values lookups) also goes through the crate's format context, whose first use registers the envelope tags there. Does not decide which text a formatting call returns while another thread "
     "is inside register_tags (run-time content), nor liveness beyond lock order.")
 TRUSTED = ['std::sync::Mutex / Once semantics', 'rustc Send/Sync checking', 'dcbor and bc-components bodies as compiled (their MIR is analysed for locks, not for panics)']
 FLOORS = {'C20.1': 3, 'C20.2': 3, 'C20.3': 2, 'C20.4': 4, 'C20.5': 1, 'C20.6': 1, 'C20.7': 1}
@@ -292,11 +292,51 @@ def check(ctx):
         ctx.ok('C20.7', '-', '%d acquisitions of the global format context, none inside a loop or a per-element closure' % nacq)
     elif ctx.config == 'mt':
         ctx.lost('C20.7', 'acquisitions of the global format context')
+    # ---------------- C20.8 no rendering reads dcbor's process-wide tag store past the crate's own context: the format context's initialiser is
+    # what fills that store (register_tags_in), so a public function that reaches TAGS without also going through FC returns text that
+    # depends on whether some other call happened to initialise the context first (a schedule-dependent result)
+    nt = 0
+    for b in F.bodies:
+        if b.dk == 'Closure' or '{closure' in b.path or not (F.item_is_exported(b) or b.impl_trait):
+            continue
+        if 'String' not in (b.local_ty(0) or ''):
+            continue          # a rendering: the tag *names* end up in the result (tag values alone do not depend on registration)
+        a_ = names_route(G, F, b, {}, ())
+        if 'TAGS' in a_:
+            nt += 1
+            if 'FC' not in a_:
+                ctx.fail('C20.8', ctx.site(b), '%s reaches dcbor\'s global tag store (%s) without going through the crate\'s format context, whose first use is what registers the '
+                         'envelope tags there: its result depends on which call ran first' % (b.name, ' > '.join(x.split('::')[-1] for x in a_['TAGS'])), key='C20.8|' + b.path)
+    if nt:
+        ctx.ok('C20.8', '-', '%d public text-returning functions reach dcbor\'s global tag store, each through the crate\'s format context' % nt)
+    elif ctx.config == 'mt':
+        ctx.lost('C20.8', 'public renderings that reach dcbor\'s tag store')
+    ctx.count('public_fns_reaching_TAGS', nt)
     # ---------------- C20.5 compile witnesses (type checking only)
     if ctx.config == 'mt':
         witness(ctx, 'pos', expect_ok=True)
     elif ctx.config == 'default':
         witness(ctx, 'neg', expect_ok=False)
+
+
+def names_route(G, F, b, memo, stack):
+    """Stores reached from b (resource -> witness path), not counting the routes through cbor_tags / tags_for_values: those map tag
+    *values* to Tag items for the codec, where a missing registration changes nothing."""
+    if b.hash in memo:
+        return memo[b.hash]
+    if b.hash in stack or len(stack) > 14:
+        return {}
+    res = {}
+    if b.hash in G.accessors:
+        res[G.accessors[b.hash]] = [b.path]
+    for bi, (F2, cb), c in G.callees(F, b):
+        if cb.name in ('cbor_tags', 'tags_for_values'):
+            continue
+        for r, w in names_route(G, F2, cb, memo, stack + (b.hash,)).items():
+            res.setdefault(r, [b.path] + w)
+    if not stack:
+        memo[b.hash] = res
+    return res
 
 
 _KC = {}
